@@ -1516,6 +1516,13 @@ def _restore_in_scheduler(sched, info, p=None, seed=None):
         template = build(p, seed)[0].searcher
         np.random.set_state(saved)
     fp0 = _gp_rng_fingerprint(searcher)
+    try:
+        # read-only probe (mechanism key only): configs the searcher's internal random searcher would not draw again
+        irs = getattr(searcher, "_random_searcher", None)
+        info["_internal_excl"] = set() if irs is None else set(irs._excl_list.excl_set)
+        info["_match_string"] = searcher.hp_ranges.config_to_match_string
+    except Exception:  # noqa: BLE001
+        info["_internal_excl"] = None
     rs0 = searcher.random_state.get_state()
     info["has_gauss"] = int(rs0[3])
     info["stage"] = "clone_from_state"
@@ -1701,12 +1708,23 @@ def _child_p2_point(p, seed, order, k, log1):
                 info["explained_by_gp_rng"] = bd3 is None or bd3 > d
             except Exception:  # noqa: BLE001
                 info["explained_by_gp_rng"] = None
+        if d is not None and d >= info["idx"] and d < len(info["log"]) and info.get("_internal_excl"):
+            try:
+                e2 = info["log"][d]
+                if e2[0] == "suggest" and e2[2] and e2[2][0]:
+                    cfg = {k_: v_ for k_, v_ in e2[2][2].items()}
+                    info["restored_config_was_excluded_by_internal_random_searcher"] = \
+                        info["_match_string"](cfg) in info["_internal_excl"]
+            except Exception:  # noqa: BLE001
+                pass
         if d is not None:
             lo = max(0, d - 1)
             info["log"] = info["log"][lo:d + 1]
             info["log_offset"] = lo
         else:
             info["log"] = []
+    info.pop("_internal_excl", None)
+    info.pop("_match_string", None)
     return info
 
 
@@ -1870,6 +1888,8 @@ def run_gpclone(spec, o):
             what += f":restored_model_params_{pt.get('params')}"
         elif pt.get("gp_rng") == "differs" and pt.get("explained_by_gp_rng"):
             what += ":gp_model_random_state_not_restored"
+        elif pt.get("restored_config_was_excluded_by_internal_random_searcher"):
+            what += ":repeats_config_excluded_only_by_internal_random_searcher"
         o.violate("continuation_equal", f"gpclone:{kind}:{what}:model={model}:template={p['template']}",
                   {"restore_point_k": k, "first_difference_at_call": d, "calls_after_restore": d - idx,
                    "uninterrupted": e1, "restored": e2, "restored_model_params_vs_snapshot": pt.get("params"),
